@@ -123,14 +123,23 @@ def run_case(case, ctx):
             else:
                 res = r
         if not via_cache:
-            res = cut(t.traverse, p, expect=(TraversedPartialPath,))
+            if case.get("root_via") == "traverse_from":
+                # "from the root" spelled as traverse_from(root_node, prefix)
+                res = cut(lambda: t.traverse_from(t.root_node, p), expect=(TraversedPartialPath,))
+                ctx.count("root_via_traverse_from")
+            else:
+                res = cut(t.traverse, p, expect=(TraversedPartialPath,))
         if isinstance(res, Raised):
             node = res.exc.simulated_node
             ctx.count("partial_path_steps")
+            if res.exc.node.node_type.name == "EXTENSION":
+                ctx.count("partial_path_steps_in_extension")
         else:
             node = res
         if node.value:
             full = tuple(int(x) for x in p) + tuple(int(x) for x in node.suffix)
+            if not isinstance(node.value, (bytes, bytearray)):
+                raise Violation("walk-met-never-stored", "the node met at %r carries a value that is not a byte string: %r" % (full, node.value))
             if len(full) % 2:
                 raise Violation("walk-met-never-stored", "met a value at the odd-length nibble path %r" % (full,))
             met.append((unnibs(full), bytes(node.value)))
@@ -203,6 +212,8 @@ class Walk:
         node = res.exc.simulated_node if isinstance(res, Raised) else res
         if node.value:
             full = tuple(int(x) for x in p) + tuple(int(x) for x in node.suffix)
+            if not isinstance(node.value, (bytes, bytearray)):
+                raise Violation("walk-met-never-stored", "%s: the node met at %r carries a value that is not a byte string" % (self.name, full))
             if len(full) % 2:
                 raise Violation("walk-met-never-stored", "%s met a value at the odd-length nibble path %r" % (self.name, full))
             self.met.append((unnibs(full), bytes(node.value)))
@@ -274,10 +285,14 @@ STRATEGIES = ["unknown", "right", "mixed", "left", "rightmost", "pivot"]
 
 
 def gen_case(rnd, tier):
-    case = hs.gen_build(rnd, maxkeys=10 if tier == "quick" else 18,
-                        kind=rnd.choice(["adv", "adv", "fix3", "chain", "nibbly", "k32", "adv", "fix3", "chain", "nibbly", "k32", "k40"]))
+    if rnd.random() < 0.04:
+        case = hs.gen_build(rnd, maxkeys=70, bulk=True)
+    else:
+        case = hs.gen_build(rnd, maxkeys=10 if tier == "quick" else 18,
+                            kind=rnd.choice(["adv", "adv", "fix3", "chain", "nibbly", "k32", "adv", "fix3", "chain", "nibbly", "k32", "k40"]))
     case["pseed"] = rnd.randrange(1 << 30)
     case["cache"] = bool(rnd.randrange(2))
+    case["root_via"] = rnd.choice(["traverse", "traverse", "traverse_from"])
     case["strategy"] = rnd.choice(STRATEGIES)
     pmut = rnd.choice([0, 0.1, 0.3, 0.6])
     muts = []
@@ -351,7 +366,8 @@ def small_scope(ctx):
                     for prune in (False, True):
                         if idx % ctx.nshards == ctx.shard:
                             yield {"prune": prune, "hist": hist, "pseed": idx, "cache": cache,
-                                   "strategy": strategy, "muts": [[at, m] for at, m in muts]}
+                                   "strategy": strategy, "muts": [[at, m] for at, m in muts],
+                                   "root_via": "traverse_from" if (idx // ctx.nshards) % 3 == 0 else "traverse"}
                         idx += 1
 
 
